@@ -112,19 +112,30 @@ move: hij; rewrite ia jb => /orP[h|h].
 by move: (leq_trans h ab); rewrite ltnn.
 Qed.
 
-Lemma body_tm_inv k st :
-  t_sym st.2 /\ t_band st.2 -> t_sym (body k st).1.2 /\ t_band (body k st).1.2.
+Lemma body_sym k st : t_sym st.2 -> t_sym (body k st).1.2.
 Proof.
-case: st => qm tm /= [Hs Hb]; rewrite /lz_body.
+case: st => qm tm /= Hs; rewrite /lz_body.
 set alpha := lz_alpha _ _ _ _ _ _.
 have S1 := t_sym_set_diag k alpha Hs.
+case: ifP => _ /=; last by [].
+case: (extra_passes _ _ _ _ _ _ _ _ _) => r4 could /=.
+exact: t_sym_set_pair.
+Qed.
+
+Lemma body_band k st : t_band st.2 -> t_band (body k st).1.2.
+Proof.
+case: st => qm tm /= Hb; rewrite /lz_body.
+set alpha := lz_alpha _ _ _ _ _ _.
 have B1 : t_band (tset tm k k alpha) by apply: t_band_set => //; lia.
 case: ifP => _ /=; last by [].
 case: (extra_passes _ _ _ _ _ _ _ _ _) => r4 could /=.
-split; first exact: t_sym_set_pair.
 apply: t_band_set; first by lia.
 by apply: t_band_set => //; lia.
 Qed.
+
+Lemma body_tm_inv k st :
+  t_sym st.2 /\ t_band st.2 -> t_sym (body k st).1.2 /\ t_band (body k st).1.2.
+Proof. by case=> Hs Hb; split; [exact: body_sym | exact: body_band]. Qed.
 
 Lemma init_tm_inv init :
   t_sym (lz_init A n C num_iter mm init).2 /\ t_band (lz_init A n C num_iter mm init).2.
